@@ -203,8 +203,73 @@ class SStr:
     def rjust(self, n, fill=" "):
         return mkstr(tuple([ord(fill)] * max(0, n - len(self.c))) + self.c)
 
-    def strip(self, *a):
-        raise Unmodelled("SStr.strip")
+    _WS = frozenset([9, 10, 11, 12, 13, 28, 29, 30, 31, 32, 0x85, 0xA0])
+
+    def _is_ws(self, ch, chars):
+        if chars is None:
+            allowed = self._WS
+        else:
+            allowed = frozenset(ord(c) for c in chars if ord(c) < 256)
+        if isinstance(ch, int):
+            return ch in allowed
+        return core_b(sbool(member_term(ch, allowed), (ch, allowed) if z3.is_const(ch) else None)) if allowed else False
+
+    def lstrip(self, chars=None):
+        c = list(self.c)
+        while c and self._is_ws(c[0], chars):
+            c.pop(0)
+        return mkstr(c)
+
+    def rstrip(self, chars=None):
+        c = list(self.c)
+        while c and self._is_ws(c[-1], chars):
+            c.pop()
+        return mkstr(c)
+
+    def strip(self, chars=None):
+        r = self.lstrip(chars)
+        return r.rstrip(chars) if isinstance(r, SStr) else r.strip(chars)
+
+    def expandtabs(self, tabsize=8):
+        out, col = [], 0
+        for ch in self.c:
+            one = mkstr((ch,))
+            if core_b(one == "\t"):
+                n = tabsize - (col % tabsize) if tabsize > 0 else 0
+                out += [32] * n
+                col += n
+            elif core_b(one == "\n") or core_b(one == "\r"):
+                out.append(ch)
+                col = 0
+            else:
+                out.append(ch)
+                col += 1
+        return mkstr(out)
+
+    def splitlines(self, keepends=False):
+        lines, cur = [], []
+        for ch in self.c:
+            one = mkstr((ch,))
+            if core_b(one == "\n"):
+                if keepends:
+                    cur.append(ch)
+                lines.append(mkstr(cur))
+                cur = []
+            elif isinstance(ch, int) and ch in (11, 12, 13, 28, 29, 30, 0x85):
+                raise Unmodelled("splitlines on exotic line separators")
+            else:
+                if not isinstance(ch, int) and core_b(sbool(member_term(ch, frozenset([11, 12, 13, 28, 29, 30, 0x85])))):
+                    raise Unmodelled("splitlines on exotic line separators")
+                cur.append(ch)
+        if cur:
+            lines.append(mkstr(cur))
+        return lines
+
+    def __getattr__(self, name):
+        # any str method the model does not implement: never an AttributeError the code could catch
+        if hasattr(str, name):
+            raise Unmodelled(f"SStr.{name}")
+        raise AttributeError(name)
 
     def join(self, items):
         out = []
@@ -371,6 +436,11 @@ class SBytes:
 
     def decode(self, *a, **k):
         raise Unmodelled("SBytes.decode")
+
+    def __getattr__(self, name):
+        if hasattr(bytes, name):
+            raise Unmodelled(f"SBytes.{name}")
+        raise AttributeError(name)
 
     def __repr__(self):
         return "SBytes(%r)" % (self.b,)
